@@ -81,6 +81,7 @@ type c10World struct {
 	gate      chan struct{}
 	gateIn    chan struct{}
 	gateOnce  sync.Once
+	slow      int64
 }
 
 type c10Msg struct{ ID int }
@@ -91,8 +92,16 @@ type c10Actor struct {
 	inst *c10Instance
 }
 
+// c10MixedID: the ids of the mixed workload are prefixes of one another - they name different actors.
+func c10MixedID(i int) string { return []string{"m1", "m10", "m1/0", "m"}[i%4] }
+
 func (w *c10World) producer(id string) actor.Producer {
 	return func() actor.Receiver {
+		// a Producer may take its time (it builds the receiver); the id is taken from the moment Spawn was called
+		userPerturb()
+		if atomic.AddInt64(&w.slow, 1)%3 == 0 {
+			time.Sleep(50 * time.Microsecond)
+		}
 		w.mu.Lock()
 		w.produced[id]++
 		inst := &c10Instance{no: len(w.instances[id]) + 1, id: id}
@@ -436,7 +445,7 @@ func c10Mixed(c *caseCtx) (res caseResult) {
 			lr := newRand(seed)
 			<-startCh
 			for i := 0; i < ops; i++ {
-				id := fmt.Sprintf("m%d", lr.Intn(nIDs))
+				id := c10MixedID(lr.Intn(nIDs))
 				switch lr.Intn(3) {
 				case 0, 1:
 					e.Spawn(w.producer(id), "mixed", actor.WithID(id))
@@ -474,7 +483,7 @@ func c10Mixed(c *caseCtx) (res caseResult) {
 	// stop what is left, then judge the live intervals
 	for i := 0; i < nIDs; i++ {
 		select {
-		case <-e.Poison(actor.NewPID("local", fmt.Sprintf("mixed/m%d", i))).Done():
+		case <-e.Poison(actor.NewPID("local", "mixed/"+c10MixedID(i))).Done():
 		case <-time.After(wd):
 			res.inconclusive("final stop not done")
 			return
